@@ -172,6 +172,13 @@ impl StorageData for FileStorage {
         let end = pos + bytes.len() as u64;
         let mut buffer = vec![0_u8; (std::cmp::min(current_len, end) - pos) as usize];
         Self::read_impl(&self.file, pos, &mut buffer)?;
+
+        // a write that starts inside the file and extends it: the overwritten
+        // bytes alone do not undo the growth, log the current length as well
+        if pos < current_len && current_len < end {
+            self.wal.insert(current_len, &[])?;
+        }
+
         self.wal.insert(pos, &buffer)?;
         self.file.seek(SeekFrom::Start(pos))?;
         self.file.write_all(bytes)?;
